@@ -554,6 +554,9 @@ def run_check(pid, tier, seed, replay=None):
                              "code (refine harness/cmd/lockextract or the pair drivers): %s" % "; ".join(unrepro))
 
     lib.log("[%.0fs] targeted tests done (%d pairs)" % (lib.elapsed() - t0, len(pairs)))
+    if run.violations:
+        # observed on the real code already: report now, the random histories would only repeat it
+        return finish(run, tier, seed, t0, model_findings, att_full, skipped_histories=True)
     # ---------------- part B2: concurrent histories
     jobs = []
     for drv, n in T["hist"].items():
@@ -639,12 +642,15 @@ def run_check(pid, tier, seed, replay=None):
         cc["not_linearizable"] = cc.get("not_linearizable", 0) + len(bad)
 
     lib.log("[%.0fs] linearization searched (%d TLC runs)" % (lib.elapsed() - t0, len(lin_jobs)))
-    # ---------------- verdict, vacuity guards, evidence
+    return finish(run, tier, seed, t0, model_findings, att_full)
+
+
+def finish(run, tier, seed, t0, model_findings, att_full, skipped_histories=False):
     for sig, n in run.known.items():
         lib.report_known(PID, "%s (observed %d time(s) in this run)" % (sig, n))
     for rp, msg in run.violations[:8]:
         lib.report_violation(PID, rp, msg)
-    for drv in DRIVERS:
+    for drv in ([] if skipped_histories else DRIVERS):
         cc = run.cov.get("driver:" + drv, {})
         if cc.get("histories", 0) == 0 and not run.violations:
             raise lib.InfraError("vacuous run: no history recorded for driver %s" % drv)
